@@ -262,10 +262,10 @@ Definition places_of_ids (io : iobs) (ids : list nat) : list (string * lrange) :
                       | _ => []
                       end) ids.
 
-(* class 4 (builder, C20): a live node that the node it names as `prev` does not point to —
-   the builder overwrote a child link (list item that begins with a list and continues).
-   Such a node is not below its note's root: it survives the deletion of the note on the
-   next edit, keeps its index entries, and `node_key` of it panics. *)
+(* (formerly class 4, F-C05-orphan-node / F-ITEMLEAD, repaired in the builder: a live node that the
+   node it names as `prev` does not point to - the builder used to overwrite a child link for a
+   list item that begins with a list and continues.  The predicate is kept as a diagnostic; it
+   excuses nothing any more.) *)
 Definition orphan_at (a : arena) (i : nat) (n : gnode) : bool :=
   match prev_of n with
   | None => false
@@ -305,7 +305,6 @@ Definition c05_props (tbl : bool) (c : c05case) : list N * list N :=
         (if cls_inline_raw sc then [1%N] else []) ++
         (if negb tbl && shadow_links then [2%N] else []) ++
         (if cls_quote_link sc then [3%N] else []) in
-      if cls_orphan (c_lib c) then (flag 1 p1 ++ flag 2 p2, [4%N]) else
       (flag 1 p1 ++ flag 2 p2 ++ flag 3 (r1 && r2),
        (* a failure of the restricted demand is explained by no class *)
        if r1 && r2 then classes else [])
